@@ -48,3 +48,11 @@ func VerifConnWindow(c *Conn) *VerifReplayWindow {
 	}
 	return &VerifReplayWindow{w: c.replayWindow}
 }
+
+// VerifConnSetReadEpoch overwrites the read epoch of a connection (lets the harness meet the
+// "older epoch" / "newer epoch" branches of the receive paths with authentic records).
+func VerifConnSetReadEpoch(c *Conn, e uint16) {
+	c.in.Lock()
+	defer c.in.Unlock()
+	c.readEpoch = e
+}
